@@ -245,6 +245,82 @@ class _W:
         return False
 
 
+class SpelledPath:
+    """an input path as asm-format sees it: only its spelling varies with the working directory"""
+
+    def __init__(self, spelling, text):
+        self.s, self.text = spelling, text
+
+    def open(self, mode="r", *a, **k):
+        return io.StringIO(self.text)
+
+    def __str__(self):
+        return self.s
+
+    __repr__ = __fspath__ = __str__
+    name = property(lambda self: self.s)
+    stem = property(lambda self: "asm")
+    suffix = property(lambda self: ".agp")
+
+    # pathlib orders paths by their spelling
+    def __lt__(self, o):
+        return self.s < o.s
+
+    def __le__(self, o):
+        return self.s <= o.s
+
+    def __gt__(self, o):
+        return self.s > o.s
+
+    def __ge__(self, o):
+        return self.s >= o.s
+
+    def __eq__(self, o):
+        return isinstance(o, SpelledPath) and self.s == o.s
+
+    def __hash__(self):
+        return 0
+
+
+class OutPath:
+    def __init__(self):
+        self.buf = io.StringIO()
+        self.buf.close = lambda: None
+
+    def open(self, mode="w", *a, **k):
+        return self.buf
+
+    suffix = ".agp"
+    name = "out.agp"
+
+    def __str__(self):
+        return "out.agp"
+
+
+AF_A = "chrA\\t1\\t10\\t1\\tW\\tca\\t1\\t10\\t+\\nchrA\\t11\\t15\\t2\\tU\\t5\\tscaffold\\tyes\\tproximity_ligation\\nchrA\\t16\\t20\\t3\\tW\\tcb\\t1\\t5\\t-\\n"
+AF_B = "chrB\\t1\\t7\\t1\\tW\\tcc\\t3\\t9\\t+\\n"
+
+
+def asm_format_run(paths):
+    from tola.assembly.scripts import asm_format as AF
+    o = OutPath()
+    AF.cli.callback(input_files=paths, input_format="AGP", output_file=o, output_format="AGP", assembly_name="asm", qc_overlaps=False)
+    return o.buf.getvalue()
+
+
+def asm_format_order(x: str, y: str) -> bool:
+    """
+    pre: 1 <= len(x) <= 3 and 1 <= len(y) <= 3 and x != y
+    post: _
+    """
+    # the same two files in the same argument order, spelled x and y (relative to whatever the working directory
+    # is): the merged output is the first file's assembly followed by the second's, whatever the spellings
+    START()
+    got = asm_format_run([SpelledPath(x, AF_A), SpelledPath(y, AF_B)])
+    ref = asm_format_run([SpelledPath("1", AF_A)]) + asm_format_run([SpelledPath("2", AF_B)])
+    return FIN(got == ref)
+
+
 def cache_warm_equals_cold(s0: int, n0: int, g: int, n1: int, off: int, rpl: int, leb: int, off2: int) -> bool:
     """
     pre: s0 >= 0 and n0 >= 1 and g >= 1 and n1 >= 1 and off >= 1 and rpl >= 1 and 1 <= leb <= 2 and off2 > off
@@ -359,6 +435,9 @@ def so_{name}({args}) -> bool:
                     "two Gap argument pairs (length 0..3, type scaffold|contig, enumerated by branching) created in either order, plus a str-length variant", encodes=ENC[6:7]))
     out.append(Cond("earlier_invocation_does_not_matter", HEAD_MISC, "invocation_order", 1200,
                     "job A (F G F cut once, symbolic numbers, Haplotig tag) run alone or after a different job B in the same process", encodes=ENC[3:4]))
+    out.append(Cond("asm_format_output_order_independent_of_path_spelling", HEAD_MISC, "asm_format_order", 600,
+                    "the real asm-format CLI callback on two input files given in a fixed order; their spellings (what changes with the working directory) are two distinct symbolic strings of 1-3 code points; "
+                    "output == first file's assembly then the second's", encodes=("asm_format.cli", "asm_format.process_fh")))
     out.append(Cond("cache_warm_equals_cold", HEAD_MISC, "cache_warm_equals_cold", 600,
                     "index of two records written by write_index/write_assembly to an in-memory .fai/.agp and loaded back: all numbers unbounded symbolic (tokens)", encodes=ENC[7:13]))
     out.append(Cond("fasta_agp_tpf_inputs_agree", HEAD_MISC, "three_formats", 600,
